@@ -64,7 +64,7 @@ CHECKS: dict[str, dict] = {
     },
     "C01": {
         "specs": [("rx", "serial", 2400, 40000), ("rx", "file", 1600, 30000), ("rx", "dict", 1600, 30000),
-                  ("rx", "mqtt", 1200, 20000)],
+                  ("rx", "mqtt", 1200, 20000), ("rx", "decode", 1000, 20000)],
         "budget": (120, 1500),
         "rule": "one run = a stream of 5-150 lines (real corpus lines, payloads sampled from the library's own per-code "
                 "regexes under the three address shapes, and 1-3-edit corruptions of both) offered through one transport: "
